@@ -221,6 +221,9 @@ void mp::internal::TextReader<Locale>::ReadHeader(NLHeader &header) {
       ReadOptionalUInt(header.num_nl_compl_conds) &&
       ReadOptionalUInt(header.num_compl_dbl_ineqs) &&
       ReadOptionalUInt(header.num_compl_vars_with_nz_lb);
+  if (header.num_compl_conds >
+      std::numeric_limits<int>::max() - header.num_nl_compl_conds)
+    ReportError("integer overflow");
   header.num_compl_conds += header.num_nl_compl_conds;
   if (header.num_compl_conds > 0 && !all_compl)
     header.num_compl_dbl_ineqs = -1;
